@@ -47,6 +47,7 @@ type c13TARes struct {
 	After    c13Tree           `json:"after"`
 	Contents map[string]int    `json:"contents"`
 	Fails    []string          `json:"fails,omitempty"`
+	Alias    []string          `json:"alias,omitempty"`
 	Leafs    int               `json:"leafs"`
 	Hooked   map[string]string `json:"hooked,omitempty"`
 	ParseErr string            `json:"parse_err,omitempty"`
@@ -217,7 +218,7 @@ func c13RunOne(c *Ctx, spec *c13TASpec) *c13TARes {
 	}
 	res.Params = c13ParamsFromSyntax(&run.Ast.TypeTable, top.GetOutParams())
 	cs := &c13Contents{}
-	mon := &c13Mon{pre: map[string]string{}}
+	mon := newC13Mon(run.PsDir)
 	var preJ *c13J
 	done := make(chan struct{})
 	go func() {
@@ -232,11 +233,7 @@ func c13RunOne(c *Ctx, spec *c13TASpec) *c13TARes {
 				preJ = j
 				c13ForEachRecord(spec.Mapped, j, func(_ string, rec *c13J) {
 					for _, p := range res.Params {
-						c13Leaves(p, rec.get(p.Id), func(_ c13Member, v *c13J) {
-							if v.K == 'q' && v.S != "" && filepath.IsAbs(v.S) {
-								mon.pre[v.S] = c13SigOf(v.S, 0)
-							}
-						})
+						c13Leaves(p, rec.get(p.Id), func(_ c13Member, v *c13J) { mon.record(v) })
 					}
 				})
 			}
@@ -293,6 +290,7 @@ func c13RunOne(c *Ctx, spec *c13TASpec) *c13TARes {
 		mon.failf("number of records changed: %d -> %d", nrec, len(postRecs))
 	}
 	res.Fails = mon.fails
+	res.Alias = mon.alias
 	res.Leafs = mon.leafs
 	return res
 }
@@ -492,7 +490,11 @@ func c13TierA(c *Ctx, r *Result) {
 			spec.Name += "-gen"
 		} else {
 			sig := c13GenSig(rng, false)
-			spec.Src = sig.mro(spec.Mapped, i%4 == 2)
+			dup := i%6 == 5 || i%12 == 3
+			spec.Src = sig.mroDup(spec.Mapped, i%4 == 2, dup)
+			if dup {
+				spec.Name += "-dupreturn"
+			}
 		}
 		specs = append(specs, spec)
 	}
@@ -519,6 +521,9 @@ func c13TACompare(c *Ctx, r *Result, specs []*c13TASpec, results []*c13TARes, co
 		}
 		if spec.Mapped != "" {
 			r.hist("tierA:mapped:" + spec.Mapped)
+		}
+		if strings.Contains(spec.Name, "-dupreturn") {
+			r.hist("tierA:one-file-two-top-level-outputs")
 		}
 		for _, k := range res.Hooked {
 			r.hist("tierA:hook:" + k)
@@ -562,6 +567,15 @@ func c13TACompare(c *Ctx, r *Result, specs []*c13TASpec, results []*c13TARes, co
 			r.violate(Violation{Kind: "property", Key: key, What: "outputs not materialised faithfully: " + strings.Join(fails, "; "),
 				Input: input, Impl: strip(res.PostOuts),
 				Expect: "every non-null file leaf readable under outs/<derived name> with the stage's content; same shape; other values unchanged"})
+		}
+		if len(res.Alias) > 0 {
+			r.hist("tierA:alias-value-points-at-other-output")
+			al := make([]string, len(res.Alias))
+			for i, f := range res.Alias {
+				al[i] = strip(f)
+			}
+			r.violate(Violation{Kind: "property", Key: "C13:alias-record-points-at-first", What: strings.Join(al, "; "),
+				Input: input, Impl: strip(res.PostOuts)})
 		}
 		// model comparison
 		mode := map[string]string{"": "o", "array": "a", "map": "m"}[spec.Mapped]
